@@ -1,6 +1,8 @@
 package donotsendfirstblocks
 
 import (
+	"errors"
+
 	"github.com/ipld/go-ipld-prime/datamodel"
 	"github.com/ipld/go-ipld-prime/node/basicnode"
 )
@@ -13,5 +15,9 @@ func EncodeDoNotSendFirstBlocks(skipBlockCount int64) datamodel.Node {
 
 // DecodeDoNotSendFirstBlocks returns the number of blocks to skip
 func DecodeDoNotSendFirstBlocks(data datamodel.Node) (int64, error) {
+	if data == nil {
+		// an extension sent with a null value has no data
+		return 0, errors.New("did not receive a block count")
+	}
 	return data.AsInt()
 }
